@@ -235,6 +235,20 @@ CLAIMED = {
         note="Thread preemption below next() granularity is only exercised (stress), not enumerated: no shared mutable state "
              "exists below that granularity in the model.",
         design="5 C18"),
+    "C19": dict(
+        technique="TLA+ Cli run-loop machine (LoadSchema / CheckSchema / Instance(k) / Return) model-checked by TLC (MC_C19: "
+                  "ExitZeroIff, EveryInstanceProcessed, PlainStdoutEmpty, CodeMonotone); every run exported and executed with "
+                  "real files through cli.run and python -m jsonschema; random longer lists trace-validated (Trace_C19)",
+        text="The CLI is specified as a state machine over abstract inputs (state of the schema file, kinds of the listed "
+             "instances, output mode) producing an exit code and sequences of stderr/stdout records. TLC explores every run "
+             "with up to 2 (quick) / 3 (thorough) instances, checks the property's clauses on every final state and exports "
+             "the expected outputs. The replay materialises files, runs the real CLI in six option variants (default and "
+             "custom --error-format, explicit --validator, class from $schema, explicit validator against a schema "
+             "declaring another draft, --base-uri with a relative file reference, instance on stdin), parses stdout/stderr "
+             "back into records and attributes each validation error by comparison with the library's own iter_errors on "
+             "the same instance.",
+        note="Pretty-mode bodies are matched by the library's message text; traceback text of parse errors is not compared.",
+        design="5 C19"),
 }
 
 PENDING_REASON = "check not built yet in this round (framework under construction; DESIGN.md section 8 build order)"
